@@ -84,9 +84,11 @@ var decided = map[string][]string{
 		"getSegmentIntersection: touching cases lie on the rectangle edge; no result when both end points are strictly on one side",
 		"fast paths of RectClip64.Execute: inside => unchanged, beside => nothing, empty rectangle => nothing",
 		"NewRectClip64 wiring",
+		"index safety of executeInternal, getNextLocation, getIntersection, addCorner, addCornerLocation; getNextLocation leaves the previous side; getIntersection reports a side when it finds a crossing",
 	},
 	"C11": {
-		"getLocation / getSegmentIntersection as in C06; NewRectClip64 passes the line path extractor; RectClipLinesPaths64 empty cases",
+		"getLocation / getSegmentIntersection / getIntersection / getNextLocation as in C06; NewRectClip64 passes the line path extractor; RectClipLinesPaths64 empty cases and composition with RectClipLines64.Execute",
+		"executeInternalPath64: every index expression in range for every open path (incl. paths lying on the rectangle boundary); RectClipLines64.Execute panic-free",
 	},
 	"C12": {
 		"every public Execute* entry point re-establishes the idle state; constructors start idle; reset() re-initialises the per-run scratch fields",
@@ -116,13 +118,13 @@ var undecided = map[string][]string{
 	"C07": {"BooleanOpPathsD / PolyTreeD / InflatePathsD composition with their 64-bit counterparts (heap-level engines)", "ScaleRectD rounding (known finding F8)", "NewClipperD(0) (known finding F17)"},
 	"C08": {"the NonZero union of the quads (C01) and commutativity of the resulting region"},
 	"C13": {"region-level translation/scaling invariance of whole operations", "advertised range 2^61 for CrossProduct, dotProduct64, getSegmentIntersectPt (known finding F13)"},
-	"C03": {"termination and nil-safety of the sweep's list walks, Execute's success flag, rectangle-clip state machine, offset join constructors (not under contract)"},
+	"C03": {"termination and nil-safety of the sweep's list walks, Execute's success flag, the rectangle clipper's edge post-pass, offset join constructors (not under contract)"},
 	"C02": {"winding 0/1, orientation signs, >= 3 vertices and first != last (need cleanCollinear's ring postcondition and the sweep)", "reverse option applied consistently (call-site argument of buildPath)"},
 	"C04": {"owner correctness, containment within the parent, IsHole <=> negative orientation, same polygons as the flat result"},
 	"C05": {"both containment clauses, Round's arc tolerance, the negative-delta mirror statement, doSquare / doRound geometry, offsetPoint's case analysis"},
 	"C10": {"end caps (known finding F12), containment clauses, Joined loops, single-point circle"},
-	"C06": {"winding-number clause and 'zero outside' (known finding F30; bounded stand-in only)", "executeInternal state machine, checkEdges / tidyEdgePair post-pass (not under contract)"},
-	"C11": {"vertices on the input line, two-point segments kept, never closed up (known finding F6)", "coverage and order of the output"},
+	"C06": {"winding-number clause and 'zero outside' beyond the bound (bounded exhaustive stand-in only)", "checkEdges / tidyEdgePair post-pass (not under contract); corner locations being sides is assumed"},
+	"C11": {"vertices on the input line, two-point segments kept, never closed up, coverage: beyond the bound (bounded exhaustive stand-in only)", "order of the output pieces"},
 	"C12": {"equality of results when the same paths are added in another order or split over several AddPaths calls (depends on the sweep's handling of equal-Y local minima)"},
 	"C17": {"all region-equality clauses: permutation of paths, start-vertex rotation, duplicated vertices, reversal, subject/clip exchange, the 8 lattice symmetries (relational properties of the sweep)"},
 	"C18": {"interleavings are not explored: the argument is the frame condition, under the assumption that the Go runtime and imported packages keep no racy shared state"},
